@@ -333,6 +333,39 @@ def check(chk):
     c = [x for x in est.calls() if call_attr(x) == "_eval"]
     ok = bool(c) and src(c[0].args[2]) == "True"
     chk.ob("FLOW-7", "evaluate_and_subscribe evaluates with subscribe=True", ok, est.where(), construct=est.ident, text="subscribe flag")
+    # the text template (several placeholders in one string) combines its subscriptions the same way: woken by the first that fires
+    tt = repo.func(PM, "TextTemplate.evaluate_and_subscribe")
+    chk.analysed(tt)
+    tcfg = tt.cfg()
+    futs = [n for n in tcfg.nodes if n.kind == "stmt" and isinstance(n.ast, ast.Assign) and src(n.ast.targets[0]) == "future" and
+            "subscriptions" in src(n.ast.value) and "ensure_future" not in src(n.ast.value)]
+    many = [n for n in futs if tcfg.guards_at(n.id).get("len(subscriptions) == 1") is False and tcfg.guards_at(n.id).get("not subscriptions") is False or
+            (tcfg.guards_at(n.id).get("len(subscriptions) == 1") is False and tcfg.guards_at(n.id).get("subscriptions") is True)]
+    ok = len(many) == 1 and isinstance(many[0].ast.value, ast.Call) and src(many[0].ast.value.func) == "Util.any" and [src(a) for a in many[0].ast.value.args] == ["subscriptions"]
+    chk.ob("FLOW-7", "a text with several placeholders is woken by the first of its subscriptions (Util.any, as evaluate_and_subscribe_template)", ok,
+           tt.where(many[0].ast) if many else tt.where(), detail=src(many[0].ast.value) if many else "no many-subscriptions branch", construct=tt.ident,
+           text="text template any subscription")
+    one = [n for n in futs if tcfg.guards_at(n.id).get("len(subscriptions) == 1") is True]
+    ok = len(one) == 1 and src(one[0].ast.value) == "subscriptions[0]"
+    chk.ob("FLOW-7", "a text with one placeholder waits on that subscription", ok, tt.where(), construct=tt.ident, text="text template single subscription")
+    # item access and attribute access of a numbered player read the same player
+    pp = repo.cls(PM, "PlayerPlaceholder")
+    idxs = {}
+    for mn in ("__getitem__", "__getattr__"):
+        m = pp.methods[mn]
+        chk.analysed(m)
+        subs = [x for x in ast.walk(m.node) if isinstance(x, ast.Subscript) and src(x.value).endswith("game.player_list")]
+        idxs[mn] = sorted({src(x.slice) for x in subs})
+        mc = m.cfg()
+        for x in subs:
+            node = [q for q in mc.nodes if q.kind == "stmt" and any(y is x for y in ast.walk(q.ast))]
+            g = mc.guards_at(node[0].id) if node else {}
+            ok = src(x.slice) == "self._number" and g.get("self._number is not None") is True and g.get("len(self._machine.game.player_list) <= self._number") is False
+            chk.ob("TABLE-8", "PlayerPlaceholder.%s reads player number self._number (0-based index into the player list), checked against the list length" % mn, ok,
+                   m.where(x), detail="index %s under %s" % (src(x.slice), sorted(k for k, v in g.items() if "number" in k)), construct=m.ident,
+                   text="numbered player index in " + mn)
+    chk.ob("TABLE-8", "item and attribute access of a numbered player agree on the index", idxs["__getitem__"] == idxs["__getattr__"] == ["self._number"], PM + ":1",
+           detail=str(idxs), construct=PM + "::PlayerPlaceholder", text="numbered player index agreement")
 
     # ------------------------------------------------------------ TABLE-8
     def waited(cls, meth):
@@ -713,6 +746,8 @@ def battery():
         M("subscribing evaluation keeps the error object as value", "mpf/core/placeholder_manager.py", "        if isinstance(result, TemplateEvalError) or result is None:\n            result = self.default_value", "        if result is None:\n            result = self.default_value", "DEFAULT-16"),
         M("a stored falsy setting falls back to the default", "mpf/core/settings_controller.py", "        if not self.machine.variables.is_machine_var(self._settings[setting_name].machine_var):\n            value = self._settings[setting_name].default\n        else:\n            value = self.machine.variables.get_machine_var(self._settings[setting_name].machine_var)\n", "        value = self.machine.variables.get_machine_var(self._settings[setting_name].machine_var)\n        if not value:\n            value = self._settings[setting_name].default\n", "TABLE-8"),
         M("current_player templates are not woken when a turn starts", "mpf/core/placeholder_manager.py", "return self._machine.events.wait_for_any_event([\"player_turn_ended\", \"player_turn_started\"])", "return self._machine.events.wait_for_event(\"player_turn_ended\")", "TABLE-8"),
+        M("text template waits for all of its subscriptions", PM, "            future = Util.any(subscriptions)\n        future = asyncio.ensure_future(future)\n        return value, future", "            future = asyncio.wait(subscriptions)\n        future = asyncio.ensure_future(future)\n        return value, future", "FLOW-7"),
+        M("item access of a numbered player reads the player before", PM, "                return self._machine.game.player_list[self._number][item]", "                return self._machine.game.player_list[self._number - 1][item]", "TABLE-8"),
     ]
 
 
